@@ -81,7 +81,14 @@ pub struct Interpreter<TStdlib: Stdlib, TStdIn: Input, TStdOut: Printer, TLpt1: 
     data_segment: DataSegment,
 
     def_seg: Option<usize>,
+
+    #[cfg(feature = "verif")]
+    verif_tick: Option<verif::TickFn>,
 }
+
+#[cfg(feature = "verif")]
+#[path = "verif.rs"]
+pub mod verif;
 
 impl<TStdlib: Stdlib, TStdIn: Input, TStdOut: Printer, TLpt1: Printer> InterpreterTrait
     for Interpreter<TStdlib, TStdIn, TStdOut, TLpt1>
@@ -191,6 +198,10 @@ impl<TStdlib: Stdlib, TStdIn: Input, TStdOut: Printer, TLpt1: Printer> Interpret
             nearest_statement_finder: NearestStatementFinder::new(statement_addresses),
         };
         while i < instructions.len() && !ctx.halt {
+            #[cfg(feature = "verif")]
+            if !self.verif_on_tick(i) {
+                break;
+            }
             let instruction = &instructions[i].element;
             let pos = instructions[i].pos();
             match self.interpret_one(i, instruction, pos, &mut ctx) {
@@ -274,6 +285,8 @@ impl<TStdlib: Stdlib, TStdIn: Input, TStdOut: Printer, TLpt1: Printer>
             print_state: PrintState::new(),
             data_segment: DataSegment::default(),
             def_seg: None,
+            #[cfg(feature = "verif")]
+            verif_tick: None,
         }
     }
 
